@@ -220,6 +220,7 @@ class _GB:
             side = self.node(in_branch=True)
             self.link(side, r.choice(arms)[0])
             self.side_inputs = getattr(self, "side_inputs", 0) + 1
+            self.side_links = getattr(self, "side_links", []) + [(side, t)]
         return c, t
 
 
@@ -253,6 +254,15 @@ def gen_graph(r, gname, cluster, opts):
             for j in range(i):
                 if r.random() < 0.35:
                     gb.link(ns[j], ns[i])
+    if opts.get("p_side_after_join"):
+        # the side input of a branch head also feeds a task after the join: when the other branch is taken that
+        # dependency is carried by the direct edge alone
+        for side, t in getattr(gb, "side_links", []):
+            if r.random() < opts["p_side_after_join"]:
+                kids = [n for n in gb.nodes if n["name"] in t["children"] and not n["terminal"]
+                        and not n["conditional"] and not n["in_branch"]]
+                if kids:
+                    gb.link(side, kids[0])
     # skip edges among top-level ordinary nodes (keeps conditional shape intact)
     top = [n for n in gb.nodes if not n["in_branch"] and not n["conditional"] and not n["terminal"]]
     if opts.get("skip_edges", True) and len(top) >= 3 and r.random() < 0.3:
@@ -273,6 +283,17 @@ def gen_graph(r, gname, cluster, opts):
             profiles.append(gen_profile(r, pn, cluster, opts))
             n["profile"] = pn
         n.pop("in_branch", None)
+    if opts.get("heavy_side_input"):
+        # the side input of a branch head needs a whole worker's worth of the first resource type for a while:
+        # it often waits behind the rest of its graph, i.e. it is still RELEASED when the join completes
+        tot = max((worker_totals(w).get(cluster["types"][0], 0) for p_ in cluster["pools"] for w in p_["workers"]),
+                  default=1)
+        for side, _t in getattr(gb, "side_links", []):
+            pn = f"{side['name']}_wp"
+            profiles = [p_ for p_ in profiles if p_["name"] != pn]
+            profiles.append({"name": pn, "strategies": [{"req": {f"{cluster['types'][0]}:any": max(tot, 1)},
+                                                         "runtime": r.choice([2, 3, 5]), "batch": 1}], "loading": []})
+            side["profile"] = pn
     return {"name": gname, "nodes": nodes, "profiles": profiles, "shape": shape}
 
 
@@ -446,6 +467,8 @@ def gen_world(seed, profile="greedy", opts=None):
             names = [n["name"] for n in g["nodes"]]
             ro.shuffle(names)
             g["node_order"] = names
+    if opts.get("stagger_sources"):
+        world["stagger_sources"] = True
     if opts.get("time_scale"):
         scale_world(world, opts["time_scale"])
         world["mixed_units"] = True
